@@ -625,6 +625,6 @@ func verifH_NewStream() {
 			ncancel++
 		}
 	}
-	verifAssert(ncancel == 1 && len(car.sent) == n0+1, "C07+C13.exactly-one-cancel-frame")
+	verifAssert(ncancel == 1 && len(car.sent) == n0+1, "C01+C07+C13.exactly-one-cancel-frame")
 	verifAssert(verifLiveGoroutines() == 0, "C14.new-stream-no-goroutine-left")
 }
